@@ -168,13 +168,24 @@ def check_C05(ctx):
 
 def check_C07(ctx):
     thorough = ctx.tier == "thorough"
-    sany(ctx, "Framing")
+    for m in ("Framing", "Records", "TimingLines"):
+        sany(ctx, m)
     cases = framing_cases(ctx, "SmallKinds", 4 if thorough else 3)
     cases += framing_cases(ctx, "AllKinds", 3 if thorough else 2)
     summ = harness(ctx, ["framing", "replay", "--prop", "C07", "--spellings", "3" if thorough else "2"],
                    stdin_lines=cases, name="framing-c07", timeout=3600)
     report_mismatches(ctx, summ, "a specialised decoder disagrees with Beatmap / with the projection the spec states")
-    ctx.assumptions += ["record content beyond framing is exercised by the C06/C11/C12/C14 replays, which also run the C07 comparison"]
+    # record contents: the Records / TimingLines case streams, every file decoded by all nine decoders
+    for sec in RECORD_SECTIONS:
+        f = records_cases(ctx, sec, 2)
+        summ = harness(ctx, ["records", "replay", "--prop", "C07", "--spellings", "1"], cases_file=f, name="records-c07-" + sec, timeout=3600)
+        report_mismatches(ctx, summ, "a specialised decoder disagrees with Beatmap on [%s] records" % sec)
+    f = timing_cases(ctx, "AlphaShape", "GensTwo", 2)
+    summ = harness(ctx, ["timing", "replay", "--prop", "C07", "--spellings", "1"], cases_file=f, name="timing-c07", timeout=3600)
+    report_mismatches(ctx, summ, "a specialised decoder disagrees with Beatmap on timing lines")
+    summ = harness(ctx, ["c07", "relations", "--tier", ctx.tier], name="c07-rel", timeout=3600)
+    report_mismatches(ctx, summ, "a specialised decoder disagrees with Beatmap on a whole map")
+    ctx.assumptions += ["shared fields as listed in harness/src/framing.rs::c07_diffs"]
     return finish(ctx, "model_checking",
                   "Framing's invariant C07Projection (each decoder applies exactly the deliveries of the sections it handles) is "
                   "checked by TLC on every file up to the bound; every file is spelled with records of all sections and decoded by all "
@@ -428,15 +439,15 @@ def check_C18(ctx):
     thorough = ctx.tier == "thorough"
     sany(ctx, "CurveCache")
     cases = os.path.join(ctx.work, "cache.ndjson")
-    consts = dict(NPool="5", NLen="2", MaxOps="3", EmptyClears="TRUE", MutClears="TRUE", Emit="TRUE")
+    consts = dict(NPool="6", NLen="2", MaxOps="3", EmptyClears="TRUE", MutClears="TRUE", Emit="TRUE")
     inv = ["Pure", "CacheCoherent", "EmitCase"]
     if thorough:
-        tlc(ctx, "CurveCache", "MC_CurveCache_5_2_4", dict(spec="Spec", invariants=inv, constants=dict(consts, MaxOps="4")),
+        tlc(ctx, "CurveCache", "MC_CurveCache_6_2_4", dict(spec="Spec", invariants=inv, constants=dict(consts, MaxOps="4")),
             workers=14, timeout=3000, cases_file=cases)
         tlc(ctx, "CurveCache", "MC_CurveCache_2_1_5", dict(spec="Spec", invariants=inv, constants=dict(consts, NPool="2", NLen="1", MaxOps="5")),
             workers=14, timeout=3000, cases_file=cases)
     else:
-        tlc(ctx, "CurveCache", "MC_CurveCache_5_2_3", dict(spec="Spec", invariants=inv, constants=consts), workers=14, timeout=3000,
+        tlc(ctx, "CurveCache", "MC_CurveCache_6_2_3", dict(spec="Spec", invariants=inv, constants=consts), workers=14, timeout=3000,
             cases_file=cases)
         tlc(ctx, "CurveCache", "MC_CurveCache_2_1_4", dict(spec="Spec", invariants=inv, constants=dict(consts, NPool="2", NLen="1", MaxOps="4")),
             workers=14, timeout=3000, cases_file=cases)
@@ -448,7 +459,7 @@ def check_C18(ctx):
     summ = harness(ctx, ["cache", "replay"], cases_file=cases, name="cache-replay", timeout=3600)
     report_mismatches(ctx, summ, "a curve depends on the API used or on what the buffers/cache held before")
     ctx.assumptions += ["F(input) is realised as Curve::new on fresh buffers (purity = equality with the fresh computation)",
-                        "pool of 6 control-point lists (empty, single point, linear, two-segment, bezier+catmull, perfect) x 3 length choices"]
+                        "pool of 7 control-point lists (empty, single point, linear, two-segment, bezier+catmull, perfect, small bezier) x 3 length choices"]
     return finish(ctx, "model_checking",
                   "TLC enumerates every sequence of {owned, borrowed, path cache (3 accessors), mutate points, mutate length, clear} "
                   "operations up to the bound over the input pool sharing one buffer set and one SliderPath, with invariants Pure and "
